@@ -32,6 +32,7 @@ const (
 	KRTrim    // text.RightTrim(kid, WsSpaces): only in the C07 sharing shapes
 	KSuppress // combinator.SuppressError(kid)
 	KSingle   // combinator.Single(kid): only in the C07 sharing shapes
+	KLTrim    // text.LeftTrim(kid, mode): only in the C02 trim shapes
 )
 
 // G is a grammar expression.
@@ -40,6 +41,7 @@ type G struct {
 	Ch   byte
 	Kids []*G
 	NT   int
+	Mode text.WsMode // KRTrim / KLTrim
 }
 
 // Grammar is a set of rules; rule 0 is the root nonterminal.
@@ -66,7 +68,11 @@ func SB1(v, s *G) *G { return &G{K: KSepBy1, Kids: []*G{v, s}} }
 func ST(k ...*G) *G  { return &G{K: KSeqTry, Kids: k} }
 func SF(a, b *G) *G  { return &G{K: KSeqFirstOrAll, Kids: []*G{a, b}} }
 func N(i int) *G     { return &G{K: KNT, NT: i} }
-func RT(g *G) *G     { return &G{K: KRTrim, Kids: []*G{g}} }
+func RT(g *G) *G     { return &G{K: KRTrim, Kids: []*G{g}, Mode: text.WsSpaces} }
+
+// RTm / LTm: RightTrim / LeftTrim with an explicit whitespace mode.
+func RTm(g *G, m text.WsMode) *G { return &G{K: KRTrim, Kids: []*G{g}, Mode: m} }
+func LTm(g *G, m text.WsMode) *G { return &G{K: KLTrim, Kids: []*G{g}, Mode: m} }
 func SUP(g *G) *G    { return &G{K: KSuppress, Kids: []*G{g}} }
 func SG(g *G) *G     { return &G{K: KSingle, Kids: []*G{g}} }
 
@@ -340,7 +346,7 @@ func (g *Grammar) Productive() bool {
 			return false
 		case KSeqTry, KSeqFirstOrAll:
 			return ok(e.Kids[0])
-		case KMany1, KSepBy1, KRTrim, KSuppress, KSingle:
+		case KMany1, KSepBy1, KRTrim, KLTrim, KSuppress, KSingle:
 			return ok(e.Kids[0])
 		}
 		for _, k := range e.Kids {
@@ -365,6 +371,27 @@ func (g *Grammar) Productive() bool {
 		}
 	}
 	return true
+}
+
+// TrimShapes: recursive memoized rules with whitespace trimming around the
+// recursive call or around a terminal, in each of the four modes (C02: the
+// re-entry bound does not depend on what is trimmed where).
+func TrimShapes() []*Grammar {
+	a, b := T('a'), T('b')
+	var out []*Grammar
+	modes := []text.WsMode{text.WsNone, text.WsSpaces, text.WsSpacesNl, text.WsSpacesForceNl}
+	names := []string{"none", "spaces", "nl", "forcenl"}
+	for i, m := range modes {
+		n := names[i]
+		out = append(out,
+			&Grammar{Name: "P->ltrim[" + n + "](P)b|a", Rules: []*G{A(S(LTm(N(0), m), b), a)}, Recursive: true},
+			&Grammar{Name: "P->rtrim[" + n + "](P)b|a", Rules: []*G{A(S(RTm(N(0), m), b), a)}, Recursive: true},
+			&Grammar{Name: "P->P ltrim[" + n + "](b)|a", Rules: []*G{A(S(N(0), LTm(b, m)), a)}, Recursive: true},
+			&Grammar{Name: "P->ltrim[" + n + "](a)?Pb|a", Rules: []*G{A(S(O(LTm(a, m)), N(0), b), a)}, Recursive: true},
+			&Grammar{Name: "P->ltrim[" + n + "](Q)b|a;Q->rtrim[" + n + "](P)", Rules: []*G{A(S(LTm(N(1), m), b), a), RTm(N(0), m)}, Recursive: true},
+		)
+	}
+	return out
 }
 
 // HasTrim reports whether the grammar uses RightTrim.
@@ -558,7 +585,9 @@ func (bt *Built) build(e *G, w *Wrap) parsley.Parser {
 		if w.TrimOperand != nil {
 			kid = w.TrimOperand(kid)
 		}
-		p = text.RightTrim(kid, text.WsSpaces)
+		p = text.RightTrim(kid, e.Mode)
+	case KLTrim:
+		p = text.LeftTrim(bt.build(e.Kids[0], w), e.Mode)
 	case KSuppress:
 		p = combinator.SuppressError(bt.build(e.Kids[0], w))
 	case KSingle:
